@@ -187,6 +187,7 @@ class GaussianMatrixParameterConstraint(ParameterConstraint):
             self._cor_mat = _matrix_array
             if uncertainties is None:
                 raise ValueError("If matrix_type is cor uncertainties must be specified!")
+            uncertainties = np.array(uncertainties)
             if relative:
                 self._uncertainties_abs = None
                 self._uncertainties_rel = uncertainties
